@@ -1840,6 +1840,11 @@ func (c *Conn) protectedReplayMarker(epoch uint16, sequenceNumber uint64) (func(
 
 	return func() bool {
 		latest := accept()
+		// The replay detector reports record number 0 as the latest one even
+		// after newer records of the epoch were accepted.
+		if latest && sequenceNumber == 0 && c.highestRemoteSequenceNumber(epoch) > 0 {
+			latest = false
+		}
 		if latest {
 			c.updateRemoteSequenceNumber(epoch, sequenceNumber)
 		}
